@@ -83,6 +83,38 @@ func (g *gen39) write(hs uint16) cmdJ {
 	return u
 }
 
+// riders: ordinary target commands (for the target's own hash slot 21) that ride in a delivery
+// batch after the deltas.  Either their outcome is decided only at commit time, so the commit of
+// the whole batch reports stale metadata and ApplyBatch re-applies every command on its own
+// (an advance of a channel-migration task that does not exist; opaque profile also: delete runtime
+// meta + retention advance, retention advance of a missing channel), or the batch aborts (a command
+// for a hash slot the target does not own) and is delivered again.
+func (g *gen39) riders() (cmds []cmdJ, redeliver bool) {
+	r := g.r
+	missing := cmdJ{K: "cm", HS: u16p(hsTarget), CM: &cmJ{K: "advance",
+		G: &guardJ{Ch: "g1", Ty: 2, ID: "t-none", St: 1, Ph: 1, Up: 1}, St: 2, Ph: 1, Up: 2}}
+	user := cmdJ{K: "upsert_user", HS: u16p(hsTarget), UID: g.uid(), S1: vh.Pick(r, genTokens...)}
+	switch x := r.IntN(10); {
+	case x < 5:
+		if vh.Chance(r, 0.5) {
+			return []cmdJ{user, missing}, false
+		}
+		return []cmdJ{missing}, false
+	case x < 8 && g.opaque:
+		if vh.Chance(r, 0.5) {
+			return []cmdJ{{K: "delete_meta", HS: u16p(hsTarget), ID: "g1", Ty: 2},
+				{K: "advance_retention", HS: u16p(hsTarget), ID: "g1", Ty: 2, N1: 1, N2: 1, N3: 1, A: 100, N4: 5, B: 100}}, false
+		}
+		return []cmdJ{{K: "advance_retention", HS: u16p(hsTarget), ID: "g2", Ty: 2, N1: 1, N2: 1, N3: 1, A: 100, N4: 5, B: 100}}, false
+	case x < 8:
+		return []cmdJ{user}, false // an ordinary rider, the batch commits in one piece
+	default:
+		bad := user
+		bad.HS = u16p(hsUnowned)
+		return []cmdJ{bad}, true
+	}
+}
+
 func (g *gen39) srcBatch(n int, fence bool) step39 {
 	st := step39{K: "src"}
 	fenceAt := -1
@@ -162,7 +194,16 @@ func genC39(r *rand.Rand, tier string, i int) input39 {
 			if n > len(idx) {
 				n = len(idx)
 			}
-			add(step39{K: "deliver", Idx: idx[:n]})
+			st := step39{K: "deliver", Idx: idx[:n]}
+			redeliver := false
+			if vh.Chance(r, 0.3) {
+				st.Cmds, redeliver = g.riders()
+			}
+			add(st)
+			if redeliver {
+				// the batch above aborts: Raft delivers the same entries again
+				add(step39{K: "deliver", Idx: idx[:n]})
+			}
 			idx = idx[n:]
 			if vh.Chance(r, 0.1) {
 				add(step39{K: "restart_tgt"})
@@ -265,6 +306,7 @@ type stepObs struct {
 	Forwards []uint64   `json:"forwards,omitempty"`  // source indexes forwarded by this src batch
 	Deltas   [][2]uint64 `json:"deltas,omitempty"`   // deliver/replay: (source index, already delivered before?)
 	TgtData  [2]uint64  `json:"tgt_data,omitempty"`  // deliver/replay: data digest of hs 12 on the target before/after
+	Applied  []uint64   `json:"applied,omitempty"`   // deliver/replay: durable applied-delta records (source indexes) afterwards
 	Err      string     `json:"err,omitempty"`
 }
 
@@ -329,10 +371,10 @@ func runC39(in input39) vh.Result {
 		}
 		return w.applyObs(mc), ents
 	}
-	deliverDeltas := func(list []fwd) (stepObs, string) {
+	deliverDeltas := func(list []fwd, extra []cmdJ) (stepObs, string, string) {
 		so := stepObs{}
 		var mc []multiraft.Command
-		var ds []string
+		var ds, ents []string
 		for _, f := range list {
 			tgtIdx++
 			mc = append(mc, multiraft.Command{SlotID: tgtSlot, HashSlot: f.HS, Index: tgtIdx, Term: 1,
@@ -344,16 +386,38 @@ func runC39(in input39) vh.Result {
 			so.Deltas = append(so.Deltas, [2]uint64{f.Index, dup})
 			ds = append(ds, vh.N(f.Index))
 		}
+		// ordinary target commands riding in the same batch after the deltas
+		for _, c := range extra {
+			data, okc := c.encode()
+			if !okc {
+				continue
+			}
+			if !c.modelled() {
+				modelled = false
+			}
+			tgtIdx++
+			mc = append(mc, multiraft.Command{SlotID: tgtSlot, HashSlot: c.hs(), Index: tgtIdx, Term: 1, Data: data})
+			ents = append(ents, vh.App("Entry", vh.B(true), vh.N(uint64(c.hs())), c.coq(), vh.Hex(data), "None", "None"))
+		}
 		before, _ := dataRows12(tgt.db)
 		b := tgt.applyObs(mc)
 		after, _ := dataRows12(tgt.db)
 		so.Batch, so.TgtData = &b, [2]uint64{before, after}
-		if b.Fatal == 0 {
-			for _, f := range list {
-				delivered[f.Index] = true
+		var applied []uint64
+		for _, d := range tgt.appliedDeltas(hsB) {
+			if d.SourceSlot == srcSlot {
+				applied = append(applied, d.SourceIndex)
 			}
 		}
-		return so, vh.List(ds)
+		so.Applied = applied
+		if b.Fatal == 0 {
+			for i, f := range list {
+				if i < len(b.Res) && b.Res[i].Cls == 0 {
+					delivered[f.Index] = true
+				}
+			}
+		}
+		return so, vh.List(ds), vh.List(ents)
 	}
 	for _, st := range in.Ops {
 		so := stepObs{K: st.K}
@@ -401,7 +465,7 @@ func runC39(in input39) vh.Result {
 			coq = vh.App("SSnapshot", vh.B(err == nil))
 		case "deliver":
 			if len(forwards) == 0 {
-				coq = vh.App("SDeliver", "[]", vh.App("BObs", "(BOk [])", vh.N(tgt.digest()), vh.N(tgt.appliedIndex())), "0", "0")
+				coq = "SRestartTgt" // nothing forwarded yet: nothing to deliver
 				break
 			}
 			var list []fwd
@@ -428,11 +492,22 @@ func runC39(in input39) vh.Result {
 					}
 				}
 			}
-			d, ds := deliverDeltas(list)
+			d, ds, ents := deliverDeltas(list, st.Cmds)
 			d.K = st.K
 			so = d
-			coq = vh.App("SDeliver", ds, so.Batch.coq(), vh.N(so.TgtData[0]), vh.N(so.TgtData[1]))
+			coq = vh.App("SDeliver", ds, ents, so.Batch.coq(), vh.N(so.TgtData[0]), vh.N(so.TgtData[1]), vh.NList(so.Applied))
 			flags["deliver"] = true
+			if len(st.Cmds) > 0 {
+				flags["mixed"] = true
+				if so.Batch.Fatal != 0 {
+					flags["mixed_abort"] = true
+				}
+				for _, r := range so.Batch.Res {
+					if r.Cls == 1 {
+						flags["mixed_stale"] = true
+					}
+				}
+			}
 			for _, x := range so.Deltas {
 				if x[1] == 1 {
 					flags["dup"] = true
@@ -447,10 +522,10 @@ func runC39(in input39) vh.Result {
 			for _, row := range rows {
 				list = append(list, fwd{row.TargetSlot, row.HashSlot, row.SourceIndex, row.Data})
 			}
-			d, ds := deliverDeltas(list)
+			d, ds, _ := deliverDeltas(list, nil)
 			d.K, d.Err = st.K, so.Err
 			so = d
-			coq = vh.App("SReplay", ds, so.Batch.coq(), vh.N(so.TgtData[0]), vh.N(so.TgtData[1]))
+			coq = vh.App("SReplay", ds, so.Batch.coq(), vh.N(so.TgtData[0]), vh.N(so.TgtData[1]), vh.NList(so.Applied))
 			flags["replay"] = true
 		case "ack":
 			var cmds []cmdJ
